@@ -79,6 +79,19 @@ EXPECT = [
      "boss := {name: \"boss\", report: counter.reporter}\nboss.report.p\nboss['report](boss).p\nself := \"outer self\"\n"
      "holder := {name: \"holder\", show: {|x| self}}\nholder.show.p\nholder2 := {name: \"h2\", show: m{self.name}}\nholder2.show.p\n",
      "counter reports to boss\ncounter reports to boss\nouter self\nh2\n"),
+    # `new` binds the arguments of the NEW iterator only (the receiver keeps its own), positional and keyword
+    ("iter_new_binds_only_the_new_iterator", "counter := <{|n| yield n; recur(n + 1)}>\na := counter.new(1)\nx := [a.next, a.next]\nb := a.new(100)\n[x, b.next, a.next, a.next, b.next].p\n"
+     "kw := <{|step: 1, from: 0| yield from; recur(step: step, from: from + step)}>\nc := kw.new(step: 2)\ny := [c.next, c.next]\nd := c.new(step: 10)\n[y, d.next, c.next, d.next, c.next].p\n",
+     "[[1, 2], 100, 3, 4, 101]\n[[0, 2], 0, 4, 10, 6]\n"),
+    # names are identified by their whole text: pairs with the same 32-bit FNV-1a hash are different variables, parameters and keys
+    ("names_with_equal_short_hashes", "f := {|costarring, liquid| [costarring, liquid]}\nf(1, 2).p\ng := {|altarage| zinke := altarage * 10; [altarage, zinke]}\ng(1).p\n"
+     "declinate := \"outer\"\nh := {|macallums| declinate}\nh(\"arg\").p\nk := {|a, b| [\\costarring, \\liquid]}\nk(costarring: 1, liquid: 2).p\n"
+     "{costarring: 1, liquid: 2, altarage: 3, zinke: 4, declinate: 5, macallums: 6}.values.p\n%{\"costarring\": 1, \"liquid\": 2}.len.p\n",
+     "[1, 2]\n[1, 10]\nouter\n[1, 2]\n[3, 1, 5, 2, 6, 4]\n2\n"),
+    # a keyword argument never fills a positional parameter of the same name
+    ("keyword_does_not_fill_positional", "f := {|a, b| [a, b]}\n[f(1), f(1, b: 2), f(b: 2), f(1, **{b: 3})].p\ng := {|name, opts| [name, opts, \\name]}\ng(name: \"kw\").p\n"
+     "o := {show: m{|prefix| [prefix, \\0.len]}}\no.show(prefix: \">>\").p\nit := <{|i, lim| yield [i, lim] if i < 2; recur(i + 1, lim: 9)}>.new(0, lim: 5)\nit.A.p\n",
+     '[[1, nil], [1, nil], [nil, nil], [1, nil]]\n[nil, nil, "kw"]\n[nil, 2]\n[[0, nil], [1, nil]]\n'),
     ("list_chain_builtin_three_args", '[(0:1), (0:2)]@new(10, 20, 5)@S.p\n[[1, 2], [3, 4]]@join("-").p\n["a", "b", "c"]@*(3).p\n',
      '["(10:20:5)", "(10:20:5)"]\n["1-2", "3-4"]\n["aaa", "bbb", "ccc"]\n'),
 ]
